@@ -679,6 +679,7 @@ package xmpp
 //@   requires t != nil
 //@   emit Connected(iface(t), id) when err == nil
 //@   ensures [C04.connect.plain] err == nil ==> !t.isSecure && t.conn != nil && fresh(t.conn) && count(Dialed) == old(count(Dialed)) + 1 && last(Dialed, 0) == t.Config.Address
+//@   ensures [C20.connect.dial] count(Dialed) - old(count(Dialed)) <= 1 && (count(Dialed) > old(count(Dialed)) ==> last(Dialed, 0) == old(t.Config.Address))
 //@   ensures [C04.connect.wired] err == nil ==> wired(t)
 //@   ensures [C02.decoder.strict] err == nil ==> strictDecoder(t.decoder)
 //@   ensures [C16.connect.id] err == nil ==> headerId(id)
@@ -742,7 +743,7 @@ package xmpp
 //@ pred sessOK(s, t) := s != nil && s.transport == t
 //@ func xmpp.NewSession(c, state) (res, err)
 //@   requires c != nil && c.transport != nil && c.config != nil && c.config.parsedJid != nil && (c.Session != nil ==> c.Session.transport == c.transport)
-//@   ensures [C03.success.auth]    err == nil ==> res != nil && res.err == nil && count(AuthConfirmed) == old(count(AuthConfirmed)) + 1 && count(Restarted) > old(count(Restarted)) && atlast(AuthConfirmed) < atlast(Restarted)
+//@   ensures [C03.success.auth,C14.success.auth]    err == nil ==> res != nil && res.err == nil && count(AuthConfirmed) == old(count(AuthConfirmed)) + 1 && count(Restarted) > old(count(Restarted)) && atlast(AuthConfirmed) < atlast(Restarted)
 //@   ensures [C03.success.tls,C04.success.tls] err == nil ==> (c.config.Insecure || last(SecureAsked, 1))
 //@   ensures [C03.success.session] (err == nil && count(ResumedOK) == old(count(ResumedOK))) ==> count(Bound) == old(count(Bound)) + 1 && atlast(Restarted) < atlast(Bound) && (!stanza.sessionOptional(res.Features) ==> count(SessionOpened) == old(count(SessionOpened)) + 1 && atlast(Bound) < atlast(SessionOpened)) && ((stanza.smOffered(res.Features) && old(c.config.StreamManagementEnable)) ==> count(SMEnabledOK) == old(count(SMEnabledOK)) + 1 && atlast(Bound) < atlast(SMEnabledOK))
 //@   ensures [C11.resumed.nobind,C03.success.resumed] (err == nil && count(ResumedOK) > old(count(ResumedOK))) ==> count(ResumedOK) == old(count(ResumedOK)) + 1 && count(Bound) == old(count(Bound)) && count(SessionOpened) == old(count(SessionOpened)) && count(SMEnabledOK) == old(count(SMEnabledOK))
